@@ -625,7 +625,7 @@ def pair_control(chk, kernels, pairs):
 # ---------------------------------------------------------------------------------------------
 def _tier_cfg(chk):
     quick = chk.tier == "quick"
-    return {"quick": quick, "max_steps": 20000 if quick else 250000, "budget_all": 60000 if quick else 600000,
+    return {"quick": quick, "max_steps": 20000 if quick else 250000, "budget_all": 25000 if quick else 600000,
             "nrandom": 2 if quick else 8, "entries": kcorpus.names(chk.tier),
             "demos": [] if quick else kcorpus.demo_files()}
 
